@@ -62,6 +62,7 @@ def build_c02(kinds, styles, want_choice, corruption, rng=None, sep_prob=0.0):
     since = 0
     chosen = {}
     stale = {}          # group index -> stdout consumed by the previous want
+    legit = {}
     last_acc = ''
     for j, g in enumerate(groups):
         wc = want_choice[j]
@@ -74,6 +75,11 @@ def build_c02(kinds, styles, want_choice, corruption, rng=None, sep_prob=0.0):
         g.want = w
         chosen[j] = name
         stale[j] = last_acc
+        # every text that IS a correct want here: any trailing run of the outputs since the previous want, or the value
+        outs = [ref[i]['out'] for i in range(since, j + 1) if ref[i].get('runs')]
+        legit[j] = set(''.join(outs[i:]).strip() for i in range(len(outs)))
+        if g.is_expr and g.val not in (None, 'RAISES'):
+            legit[j].add(g.val.strip())
         last_acc = ''.join(ref[i]['out'] for i in range(since, j + 1) if ref[i].get('runs'))
         since = j + 1
     expect = {'pfs': '100', 'kind': None, 'T': [g.k for g, r in zip(groups, ref) if r['runs']]}
@@ -87,6 +93,8 @@ def build_c02(kinds, styles, want_choice, corruption, rng=None, sep_prob=0.0):
         cw = corrupt(groups[j].want, how, stale.get(j, ''))
         if cw is None:
             return None
+        if cw.strip() in legit[j]:
+            return None      # the corrupted text happens to be another correct want (coincidence of outputs)
         groups[j].want = cw
         expect = {'pfs': '010', 'kind': 'gotwant', 'fail_group': j,
                   'T': [g.k for g, r in zip(groups[:j + 1], ref) if r['runs']]}
